@@ -81,6 +81,9 @@ pub fn cfg_any(rng: &mut Rng) -> Cfg {
     }
 }
 pub fn cfg_overlay_top(rng: &mut Rng) -> Cfg {
+    if rng.chance(1, 8) {
+        return Cfg::OvlShared(Box::new(if rng.chance(1, 3) { Cfg::Phys } else { Cfg::Mem }), rng.range(2, 3));
+    }
     let n = rng.range(1, 4);
     let mut layers = vec![];
     for i in 0..n {
@@ -96,6 +99,15 @@ pub fn cfg_overlay_top(rng: &mut Rng) -> Cfg {
     Cfg::Ovl(layers)
 }
 pub fn cfg_overlay_multi(rng: &mut Rng) -> Cfg {
+    if rng.chance(1, 6) {
+        // layers that are sub-directories of one shared filesystem instance
+        let inner = match rng.below(4) {
+            0 => Cfg::Phys,
+            1 => Cfg::Alt(Box::new(Cfg::Mem), "/__alt/p".into()),
+            _ => Cfg::Mem,
+        };
+        return Cfg::OvlShared(Box::new(inner), rng.range(2, 3));
+    }
     loop {
         if let Cfg::Ovl(l) = cfg_overlay_top(rng) {
             if l.len() >= 2 {
